@@ -162,7 +162,7 @@ pub fn gen_nondec(rng: &mut Rng) -> (Vec<u8>, u64) {
     };
     let maxd = match radix {
         16 => 16,
-        8 => 21,
+        8 => 22,
         _ => 64,
     };
     let n = match rng.usize(6) {
@@ -175,7 +175,7 @@ pub fn gen_nondec(rng: &mut Rng) -> (Vec<u8>, u64) {
     for i in 0..n {
         let mut d = *rng.pick(digs);
         let mut x = (d as char).to_digit(radix as u32).unwrap() as u128;
-        if radix == 8 && n == 21 && i == 0 {
+        if radix == 8 && n == 22 && i == 0 {
             // keep within 64 bits
             d = if rng.bool() { b'1' } else { b'0' };
             x = (d - b'0') as u128;
@@ -184,6 +184,60 @@ pub fn gen_nondec(rng: &mut Rng) -> (Vec<u8>, u64) {
         v.push(d);
     }
     (v, val as u64)
+}
+
+/// `#H/#Q/#B` literal around and beyond the 64-bit boundary, with leading zeros: (text, exact value when it
+/// fits 64 bits, `None` when the literal denotes a larger number)
+pub fn gen_nondec_wide(rng: &mut Rng) -> (Vec<u8>, Option<u64>) {
+    let (r, radix, digs): (u8, u128, &[u8]) = match rng.usize(3) {
+        0 => (b'H', 16, b"0123456789ABCDEFabcdef"),
+        1 => (b'Q', 8, b"01234567"),
+        _ => (b'B', 2, b"01"),
+    };
+    // number of digits a full 64-bit value needs
+    let full: usize = match radix {
+        16 => 16,
+        8 => 22,
+        _ => 64,
+    };
+    let n = match rng.usize(8) {
+        0 | 1 => full,
+        2 => full + 1,
+        3 => full - 1,
+        4 => full + 2 + rng.usize(full),
+        _ => 1 + rng.usize(full + 2),
+    };
+    let zeros = match rng.usize(6) {
+        0 => 1 + rng.usize(3),
+        1 => 20 + rng.usize(60),
+        _ => 0,
+    };
+    let fill = rng.usize(4); // 0/1 random, 2 all zero after the leading digit, 3 all maximal
+    let mut v = vec![b'#', if rng.bool() { r } else { r.to_ascii_lowercase() }];
+    v.extend(std::iter::repeat(b'0').take(zeros));
+    let mut val: u128 = 0;
+    let mut over = false;
+    for i in 0..n {
+        let d = if i == 0 {
+            // leading significant digit: every non-zero digit of the radix
+            let k = 1 + rng.usize(radix as usize - 1);
+            std::char::from_digit(k as u32, radix as u32).unwrap().to_ascii_uppercase() as u8
+        } else {
+            match fill {
+                2 => b'0',
+                3 => std::char::from_digit(radix as u32 - 1, radix as u32).unwrap().to_ascii_uppercase() as u8,
+                _ => *rng.pick(digs),
+            }
+        };
+        let x = (d as char).to_digit(radix as u32).unwrap() as u128;
+        val = val * radix + x;
+        if val > u64::MAX as u128 {
+            over = true;
+            val = u64::MAX as u128 + 1;
+        }
+        v.push(d);
+    }
+    (v, if over { None } else { Some(val as u64) })
 }
 
 #[derive(Clone, Debug)]
